@@ -28,7 +28,7 @@ def e2e_cfg(name, spec, c, view=None):
     return cb.write_cfg(name + ".cfg", "\n".join(t) + "\n")
 
 
-def e2e_mc(rep, name, c, timeout=1800, workers=10):
+def e2e_mc(rep, name, c, timeout=3600, workers=10):
     cfg = e2e_cfg("E_" + name, "Spec", c)
     r = cb.tlc("E2E", cfg, "E_" + name, workers=workers, timeout=timeout)
     rep.add_tlc(r, f"TLC E2E {name} (ticks {c['ticks']} of {c['deltas']}, polls {c['polls']}, asks {c['asks']}, starts {c['starts']}, poller {c['poller']}, client {c['client']}, offset {c.get('offset', 'abs')}, pre-sync {c.get('policy', 'unknown')})")
@@ -117,7 +117,7 @@ def orders_or_drift():
 
 
 MCQ = dict(deltas="{1, 5, 1000}", bounds="{0, 3}", ticks=2, polls=2, asks=1, starts=1)
-MCT = dict(deltas="{1, 4, 5, 994, 1000}", bounds="{0, 3}", ticks=3, polls=2, asks=2, starts=2)
+MCT = dict(deltas="{1, 4, 5, 994, 1000}", bounds="{0, 3}", ticks=3, polls=2, asks=1, starts=1)   # ~2*10^8 states, ~20 min
 SIM = dict(deltas="{1, 4, 5, 994, 1000}", bounds="{0, 3}", ticks=6, polls=4, asks=3, starts=2)
 ASSUME = ["scaled units: time 1 s, error 1 unit = RHO * 1 s; the replay uses RHO = 65536 ppb, 1 unit = 65536 ns, reports rounded UP to chrony's wire format",
           "the harness owns true time (virtual clock through the cfg-gated override): CLOCK_REALTIME = true time + err, CLOCK_MONOTONIC = uptime",
@@ -133,7 +133,7 @@ def c01(tier, seed):
     o = orders_or_drift()
     rep.extra["extracted_orders"] = o
     orders = {"poller": o["poller"] if o["poller"] != "other" else "mono_first", "client": o["client"] if o["client"] != "other" else "real_first"}
-    r = e2e_mc(rep, "q" if tier == "quick" else "t", dict(MCQ if tier == "quick" else MCT, **orders), timeout=3000)
+    r = e2e_mc(rep, "q" if tier == "quick" else "t", dict(MCQ if tier == "quick" else MCT, **orders), timeout=5400)
     mc_violated = r.violated
     b, n = e2e_sim(rep, "sim", dict(SIM, **orders), 400 if tier == "quick" else 6000, 45, seed)
     drifts = e2e_replay(rep, b, orders, {"C01"}, "E2E walks")
@@ -172,7 +172,7 @@ def c12(tier, seed):
         rep.violation("client-read-order", f"now() reads the clocks in the order {o['client_reads']} (0 = CLOCK_REALTIME): the realtime clock is not read first", {"kind": "order", "observed": o})
     orders = {"poller": o["poller"] if o["poller"] in ("mono_first", "query_first") else "mono_first", "client": o["client"] if o["client"] in ("real_first", "mono_first") else "real_first"}
     # the consequence, in the model: with the code's orders every delay preserves containment ...
-    r = e2e_mc(rep, "q" if tier == "quick" else "t", dict(MCQ if tier == "quick" else MCT, **orders), timeout=3000)
+    r = e2e_mc(rep, "q" if tier == "quick" else "t", dict(MCQ if tier == "quick" else MCT, **orders), timeout=5400)
     if r.violated:
         rep.notes.append(f"E2E.tla with the extracted orders violates {r.violated}: a delay between the reads shrinks the interval below what C01 requires")
     # ... and each swapped order breaks it (regression of the model: the property is not vacuous)
